@@ -18,7 +18,11 @@ tvars == <<c, reg, hist, outs>>
 RECURSIVE Canon(_)
 \* a struct held by value in an interface comes back as a pointer to the struct (the recomposer builds values with
 \* reflect.New): the pointer directly under an interface is disregarded
-Canon(tv) == IF tv.g = "iface" /\ ~tv.nil /\ tv.a[1].g = "ptr" /\ ~tv.a[1].nil THEN [tv EXCEPT !.a = <<Canon(tv.a[1].a[1])>>]
+\* a chain of pointers that ends in nil (type P *P: &&nil) is written as null and can only come back as nil
+RECURSIVE NilChain(_)
+NilChain(tv) == tv.g = "ptr" /\ (tv.nil \/ NilChain(tv.a[1]))
+Canon(tv) == IF NilChain(tv) THEN [g |-> "ptr", nil |-> TRUE, a |-> <<>>]
+             ELSE IF tv.g = "iface" /\ ~tv.nil /\ tv.a[1].g = "ptr" /\ ~tv.a[1].nil THEN [tv EXCEPT !.a = <<Canon(tv.a[1].a[1])>>]
              ELSE IF tv.g \in {"ptr", "iface"} THEN [tv EXCEPT !.a = [i \in 1..Len(tv.a) |-> Canon(tv.a[i])]]
              ELSE IF tv.g \in {"slice", "map"} THEN [tv EXCEPT !.nil = FALSE, !.a = [i \in 1..Len(tv.a) |-> Canon(tv.a[i])]]
              ELSE IF tv.g = "array" THEN [tv EXCEPT !.a = [i \in 1..Len(tv.a) |-> Canon(tv.a[i])]]
@@ -85,7 +89,9 @@ Class(e) == LET F == Feat(e.orig) IN
             ELSE IF "named-scalar" \in F THEN "named-scalar"             \* likewise (C15 F11)
             ELSE IF "nil-pointer-element" \in F THEN "nil-pointer-element"
             ELSE IF e.tagkeyed /\ ~Same(e.orig, AsImpl6(e.orig)) /\ Same(e.res, AsImpl6(e.orig)) THEN "tag-names-other-member" ELSE "-"
-JudgeRt(e) == (IF e.ok /\ Same(e.res, e.orig) THEN <<>>
+\* a call that does not return (watchdog in the harness: the child process was killed or died) is a violation of its own kind
+JudgeRt(e) == IF e.hang THEN <<[i |-> c, kind |-> "hang", api |-> e.api, t |-> "-", pos |-> 0, pred |-> <<>>, m |-> e.m]>> ELSE
+              (IF e.ok /\ Same(e.res, e.orig) THEN <<>>
                ELSE <<[i |-> c, kind |-> "not-inverse", api |-> e.api, t |-> Class(e), pos |-> 0, pred |-> <<>>, m |-> e.m]>>)
               \o (IF e.ok /\ e.alias /\ ~e.oalias
                   THEN <<[i |-> c, kind |-> "aliased", api |-> e.api, t |-> "shape", pos |-> 0, pred |-> <<>>, m |-> ""]>> ELSE <<>>)
